@@ -19,7 +19,7 @@ tvars == <<l, map, cfg, bad, skip, hs, stats>>
 
 Init == /\ l = 1 /\ map = EmptyFn /\ cfg = EmptyFn /\ bad = 0 /\ skip = FALSE /\ hs = EmptyFn
         /\ stats = [cases |-> 0, puts |-> 0, dels |-> 0, errs |-> 0, observes |-> 0,
-                    overwrites |-> 0, delpresent |-> 0, nontrivial |-> 0]
+                    overwrites |-> 0, delpresent |-> 0, nontrivial |-> 0, putbytes |-> 0]
 
 \* does the name the diagnosis is about share its hash with another name used in this case?
 Collides(n) == /\ n \in DOMAIN hs
@@ -32,12 +32,14 @@ RejectItems(e, items) ==
   /\ bad' = bad + 1
   /\ skip' = TRUE
   /\ UNCHANGED <<map, cfg>>
+\* (the heap appends: space of overwritten and deleted values is not used again, so the load of the heap is the volume of
+\* all values ever written to the object - stats.putbytes - as much as the volume of the live ones)
 \* bytes the attributes of the object occupy by the model (element size x number of elements, plus about 40 bytes of message
 \* header, name, datatype and dataspace each): the dense attribute heap has one direct block of 64 KiB
 ValBytes(v) == IF "size" \in DOMAIN v /\ "dims" \in DOMAIN v
                THEN v.size * (LET RECURSIVE P(_) P(i) == IF i > Len(v.dims) THEN 1 ELSE v.dims[i] * P(i + 1) IN P(1)) ELSE 0
 HeapBytes == LET RECURSIVE S(_) S(D) == IF D = {} THEN 0 ELSE LET n == CHOOSE n \in D : TRUE IN ValBytes(map[n]) + 40 + S(D \ {n}) IN S(DOMAIN map)
-Item(diag, n, exp, got) == [diag |-> diag, n |-> n, exp |-> exp, got |-> got, collides |-> Collides(n), heapover56k |-> HeapBytes > 57344]
+Item(diag, n, exp, got) == [diag |-> diag, n |-> n, exp |-> exp, got |-> got, collides |-> Collides(n), heapover56k |-> HeapBytes > 57344 \/ stats.putbytes > 57344]
 Reject(e, diag, detail) == RejectItems(e, <<[diag |-> diag, detail |-> detail, collides |-> FALSE]>>)
 
 -----------------------------------------------------------------------------
@@ -64,9 +66,9 @@ DefItems(e) ==
 
 \* sequence of failing items of an observation; <<>> = accepted
 ModelItems(e) ==
-  IF e.open # "ok" THEN <<[diag |-> "file-does-not-open", detail |-> e.open, collides |-> FALSE]>>
-  ELSE IF ~e.found THEN <<[diag |-> "object-missing", detail |-> "", collides |-> FALSE]>>
-  ELSE IF e.attrres # "ok" THEN <<[diag |-> "attribute-list-error", detail |-> e.attrres, collides |-> FALSE]>>
+  IF e.open # "ok" THEN <<[diag |-> "file-does-not-open", detail |-> e.open, collides |-> FALSE, heapover56k |-> HeapBytes > 57344 \/ stats.putbytes > 57344]>>
+  ELSE IF ~e.found THEN <<[diag |-> "object-missing", detail |-> "", collides |-> FALSE, heapover56k |-> HeapBytes > 57344 \/ stats.putbytes > 57344]>>
+  ELSE IF e.attrres # "ok" THEN <<[diag |-> "attribute-list-error", detail |-> e.attrres, collides |-> FALSE, heapover56k |-> HeapBytes > 57344 \/ stats.putbytes > 57344]>>
   ELSE
     LET dup     == {i \in DOMAIN e.attrs : \E j \in DOMAIN e.attrs : j < i /\ e.attrs[j].n = e.attrs[i].n}
         missing == {n \in DOMAIN map : n \notin ObsNames(e)}
@@ -92,7 +94,7 @@ Step(e) ==
   CASE e.op = "put" ->
          IF e.res = "ok"
          THEN /\ map' = FnPut(map, e.n, e.val)                     \* AttrMap!Put
-              /\ stats' = [stats EXCEPT !.puts = @ + 1,
+              /\ stats' = [stats EXCEPT !.puts = @ + 1, !.putbytes = @ + ValBytes(e.val) + 40,
                                         !.overwrites = @ + (IF e.n \in DOMAIN map THEN 1 ELSE 0)]
               /\ UNCHANGED <<bad, skip, cfg>>
          ELSE IF e.res = "err"
@@ -130,7 +132,7 @@ Consume ==
   /\ LET e == Trace[l] IN
        IF e.op = "reset"
        THEN /\ map' = EmptyFn /\ cfg' = e.cfg /\ skip' = FALSE /\ bad' = bad /\ hs' = EmptyFn
-            /\ stats' = [stats EXCEPT !.cases = @ + 1, !.overwrites = 0, !.delpresent = 0]
+            /\ stats' = [stats EXCEPT !.cases = @ + 1, !.overwrites = 0, !.delpresent = 0, !.putbytes = 0]
        ELSE IF skip THEN UNCHANGED <<map, cfg, bad, skip, hs, stats>>
        ELSE /\ Step(e)
             /\ hs' = IF e.op \in {"put", "del"} THEN FnPut(hs, e.n, e.h) ELSE hs
